@@ -283,6 +283,11 @@ theorem startOne_af (l : Live) (t : Nat) : af (startOne m l t) = af l := by
   show af (((List.range m.nT).filter (workingTarget m l)).foldl (startOne m) l) = af l
   exact foldl_proj _ af (startOne_af m) _ _
 
+@[simp] theorem chkWorkingIf_af (b : Bool) (l : Live) : af (chkWorkingIf b m l) = af l := by
+  cases b
+  · rfl
+  · exact chkWorking_af m l
+
 end frame
 
 /-! ### check_state(FINISHED) only clears lists -/
@@ -873,7 +878,9 @@ theorem Idle_stepBody (p : Params) (s : St) (t : Nat) (ht : t < m.nT)
     (hI : EligInv m s.live) (hno : ∀ w, w < m.nW → ¬ WorkerElig m t w) (h : Idle s.live t) :
     Idle (stepBody m p s).live t := by
   rw [stepBody_live]
-  exact (Idle_chkWorking m _ t (Idle_preWorking m p s t ht hI hno h) ha).of_eq rfl rfl
+  cases startGuard p s
+  · exact (Idle_preWorking m p s t ht hI hno h).of_eq rfl rfl
+  · exact (Idle_chkWorking m _ t (Idle_preWorking m p s t ht hI hno h) ha).of_eq rfl rfl
 
 /-- after `initialize(state_info=True)` a task below `nT` is NONE or READY and holds nothing,
 unless the logs were reset too and its default progress is already complete -/
